@@ -474,7 +474,13 @@ func (p *Prelude) textFor(vc *VC) string {
 			if n == "core" {
 				// sorts generated from Go struct types come right after the core sorts
 				b.WriteString("; ---- struct sorts\n")
-				b.WriteString(vc.ss().decls())
+				if vc.fn == nil {
+					// a lemma or a static fact: no code, hence no struct sorts beyond those it names itself
+					// (keeps the query independent of which functions happen to be checked in the same run)
+					b.WriteString("; @@STRUCT-SORTS@@\n")
+				} else {
+					b.WriteString(vc.ss().decls())
+				}
 			}
 		}
 	}
